@@ -1,5 +1,5 @@
 import MidoModel.Meta
-import MidoModel.Generated.Src
+import MidoModel.Generated.SrcMetaNum
 import MidoProofs.SrcTie.Basic
 import MidoProofs.SrcTie.Codec
 set_option linter.unusedSimpArgs false
